@@ -16,7 +16,7 @@ from __future__ import annotations
 import ast
 from typing import Iterator, Optional
 
-from .core import Module, Repo, Report, norm, own_nodes
+from .core import Module, Repo, Report, canon, norm, own_nodes
 
 # Falsy-capable classes with *legal* falsy members.  IdentifiedNode / URIRef /
 # BNode / Variable are str subclasses too, but their only falsy value is the
@@ -198,8 +198,7 @@ def scan(
             continue
         n_tr += 1
         w = where_of(mod, e, where)
-        key = (w, norm(e))
-        why = exempt.get(key)
+        why = {(a, canon(b)): r for (a, b), r in exempt.items()}.get((w, canon(e)))
         ctx = norm(owner.test) if hasattr(owner, "test") else norm(owner)
         if why:
             rep.ob(rule, mod, w, "%s [in %s: %s]" % (norm(e), kind, ctx[:120]), True, "truthiness test exempt: " + why, node=e)
